@@ -3,6 +3,7 @@ package rules
 import (
 	"go/ast"
 	"go/token"
+	"go/types"
 
 	"lachk/core"
 )
@@ -10,8 +11,8 @@ import (
 const semT = "utils/datasemaphore.DataSemaphore"
 
 func init() {
-	register("C30", "other", "T1 LockSet, T18 TimedWait, T4 GuardedBy (normalised comparisons), T3 PostDominates (Broadcast after every state change)",
-		"Decides the shape the semaphore's bound/wait/timeout behaviour depends on: all state under the mutex; tryAcquire commits the new held amount only on the edge where both components fit the capacity; Acquire refuses over-capacity requests before waiting, re-evaluates tryAcquire, the capacity refusal (Terminate zeroes the capacity while callers sleep) and the deadline after every wake-up, and every cond.Wait is preceded by a deadline-bound waker that broadcasts under the mutex (otherwise a waiter that nobody releases for sleeps past its timeout); every change of the held amount or capacity in Release/Terminate is followed by Broadcast; over-release zeroes the held amount and calls the nil-guarded warning; Terminate zeroes the capacity. Timing ('returns shortly after') and uint32 wrap of summed amounts are not decided.",
+	register("C30", "other", "T1 LockSet, T18 TimedWait, T4 GuardedBy (normalised comparisons), T3 PostDominates (Broadcast after every state change), reaching definitions with linear normal forms (Release)",
+		"Decides the shape the semaphore's bound/wait/timeout behaviour depends on: all state under the mutex; tryAcquire commits the new held amount only on the edge where both components fit the capacity; Acquire refuses over-capacity requests before waiting, re-evaluates tryAcquire, the capacity refusal (Terminate zeroes the capacity while callers sleep) and the deadline after every wake-up, and every cond.Wait is preceded by a deadline-bound waker that broadcasts under the mutex (otherwise a waiter that nobody releases for sleeps past its timeout) and that has not been cancelled since without a new one being armed; every change of the held amount or capacity in Release/Terminate is followed by Broadcast; Terminate zeroes the capacity. tryAcquire returns false only over an edge establishing that a component does not fit, its capacity test must not be written with a non-constant unsigned subtraction (`capacity - held` wraps once Terminate zeroed the capacity while an amount is held, so a non-empty request would be granted after termination), and TryAcquire returns tryAcquire's result. Release (inlined view, reaching definitions, linear normal forms, path queries; no code is interpreted or executed): every definition that can reach a store into the held amount is held - released, defined only on paths that established released <= held for both components, or the zero value, reaching the store only over an edge establishing held < released for some component; every path stores both components; the warning callback is called only on such an edge and only when non-nil, not after a store and not twice, and every path that has not established released <= held passes the call or the warning == nil edge. Timing ('returns shortly after') and uint32 wrap of summed amounts are not decided.",
 		[]string{"amounts sum below 2^32 (uint32 wrap in tmp.Num += is not analysed)", "time.AfterFunc runs its function once after the duration (time package contract)"},
 		runC30)
 }
@@ -20,8 +21,8 @@ func runC30(c *core.Ctx) {
 	p := c.P
 	c.Clause("C30.lock", func() {
 		res := core.RunLockset(p, semaphoreLockSpec())
-		n := reportLockset(c, res, nil, nil)
-		c.ExpectAtLeast("semaphore (function,field) access groups", n, 8)
+		reportLockset(c, res, nil, nil)
+		c28FieldFloors(c, res, semaphoreLockSpec())
 	})
 
 	c.Clause("C30.tryAcquire", func() {
@@ -32,51 +33,70 @@ func runC30(c *core.Ctx) {
 			c30TryAcquireInPlace(c, f)
 			return
 		}
-		c.Need(len(as) == 1, "exactly one assignment to processing in tryAcquire")
-		a := as[0]
-		tmp := varOf(f, a.RHS)
-		c.Need(tmp != nil, "processing is assigned from a local variable")
 		param := f.Param(0)
 		c.Need(param != nil, "tryAcquire has a named metric parameter")
-		// provenance of tmp: starts as s.processing, then += param.Num / param.Size
-		okInit := false
-		added := map[string]bool{}
-		for _, d := range assignments(f) {
-			if root, path := fieldPath(f, d.LHS); len(path) == 1 && varOf(f, root) == tmp && d.Tok == token.ADD_ASSIGN {
-				r2, p2 := fieldPath(f, d.RHS)
-				if len(p2) == 1 && p2[0] == path[0] && varOf(f, r2) == param {
-					if ok, _ := f.MustPassBefore([]core.Point{d.Pt}, a.Pt); ok {
-						added[path[0]] = true
+		// every commit owes the obligations (there may be one, or one per branch)
+		for _, a := range as {
+			tmp := varOf(f, a.RHS)
+			c.Need(tmp != nil, "processing is assigned from a local variable")
+			// provenance of tmp: starts as s.processing, then += param.Num / param.Size
+			okInit := false
+			added := map[string]bool{}
+			for _, d := range assignments(f) {
+				if root, path := fieldPath(f, d.LHS); len(path) == 1 && varOf(f, root) == tmp && d.Tok == token.ADD_ASSIGN {
+					r2, p2 := fieldPath(f, d.RHS)
+					if len(p2) == 1 && p2[0] == path[0] && varOf(f, r2) == param {
+						if ok, _ := f.MustPassBefore([]core.Point{d.Pt}, a.Pt); ok {
+							added[path[0]] = true
+						}
 					}
 				}
+				if varOf(f, d.LHS) == tmp && d.RHS != nil && fieldNameOf(f, d.RHS) == semT+".processing" {
+					okInit = true
+				}
 			}
-			if varOf(f, d.LHS) == tmp && d.RHS != nil && fieldNameOf(f, d.RHS) == semT+".processing" {
-				okInit = true
+			c.Check(okInit && added["inter/dag.Metric.Num"] && added["inter/dag.Metric.Size"], "tmp=processing+request", "provenance", a.Stmt.Pos(),
+				"the committed value is processing with the request's Num and Size added on every path", "the value stored into processing is not processing + request (Num and Size)")
+			// guard: tmp.X <= max.X for both components
+			name := func(acc c30Access) string {
+				if len(acc.Path) == 1 && acc.Root == tmp {
+					return "new." + short(acc.Path[0])
+				}
+				if len(acc.Path) == 2 && acc.Path[0] == semT+".maxProcessing" {
+					return "max." + short(acc.Path[1])
+				}
+				return ""
+			}
+			for _, comp := range []string{"Metric.Num", "Metric.Size"} {
+				ok, path := c30Guarded(f, a.Pt, "new."+comp+" - max."+comp+" <= 0", name)
+				c.Check(ok, "commit guarded by "+comp+"<=max", "T4 GuardedBy", a.Stmt.Pos(),
+					"processing is updated only on the edge where new."+comp+" <= max."+comp,
+					"processing can be updated without new."+comp+" <= max."+comp+" having been established: path "+f.DescribePath(path)+c30WrapHint(f))
 			}
 		}
-		c.Check(okInit && added["inter/dag.Metric.Num"] && added["inter/dag.Metric.Size"], "tmp=processing+request", "provenance", a.Stmt.Pos(),
-			"the committed value is processing with the request's Num and Size added on every path", "the value stored into processing is not processing + request (Num and Size)")
-		// guard: tmp.X <= max.X for both components
-		name := func(acc c30Access) string {
-			if len(acc.Path) == 1 && acc.Root == tmp {
+		// success result only after a commit
+		for _, rp := range returnsWith(f, 0, func(e ast.Expr) bool { return isIdentNamed(e, "true") }) {
+			ok, path := f.MustPassBefore(pointsOfAssign(as), rp)
+			c.Check(ok, "true only after commit", "T2 Dominates", posOf(rp), "returns true only after committing", "returns true without committing: "+f.DescribePath(path))
+		}
+		// a fitting request is granted: false is returned only over an edge establishing new.X > max.X
+		tmps := map[*types.Var]bool{}
+		for _, a := range as {
+			tmps[varOf(f, a.RHS)] = true
+		}
+		c30Refusals(c, f, func(comp string) string { return "max." + comp + " - new." + comp + " + 1 <= 0" }, func(acc c30Access) string {
+			if len(acc.Path) == 1 && acc.Root != nil && tmps[acc.Root] {
 				return "new." + short(acc.Path[0])
 			}
 			if len(acc.Path) == 2 && acc.Path[0] == semT+".maxProcessing" {
 				return "max." + short(acc.Path[1])
 			}
 			return ""
-		}
-		for _, comp := range []string{"Metric.Num", "Metric.Size"} {
-			ok, path := c30Guarded(f, a.Pt, "new."+comp+" - max."+comp+" <= 0", name)
-			c.Check(ok, "commit guarded by "+comp+"<=max", "T4 GuardedBy", a.Stmt.Pos(),
-				"processing is updated only on the edge where new."+comp+" <= max."+comp,
-				"processing can be updated without new."+comp+" <= max."+comp+" having been established: path "+f.DescribePath(path))
-		}
-		// success result only after commit
-		for _, rp := range returnsWith(f, 0, func(e ast.Expr) bool { return isIdentNamed(e, "true") }) {
-			ok, path := f.MustPassBefore([]core.Point{a.Pt}, rp)
-			c.Check(ok, "true only after commit", "T2 Dominates", posOf(rp), "returns true only after committing", "returns true without committing: "+f.DescribePath(path))
-		}
+		})
+	})
+
+	c.Clause("C30.try", func() {
+		c30Delegates(c)
 	})
 
 	c.Clause("C30.acquire", func() {
@@ -128,11 +148,11 @@ func runC30(c *core.Ctx) {
 	})
 
 	c.Clause("C30.broadcast", func() {
-		n := 0
 		for _, name := range []string{"Release", "Terminate"} {
 			f := c.Fn(semT + "." + name)
 			// a Broadcast made by a helper that always broadcasts counts as a Broadcast
 			bc := f.SitesMust(func(cs *core.CallSite) bool { return cs.Name == "sync.Cond.Broadcast" }, 2)
+			n := 0
 			for _, fld := range []string{".processing", ".maxProcessing"} {
 				// a state change made by a helper counts as a state change at the helper's call site
 				for _, ch := range c30StateChanges(f, semT+fld, 2) {
@@ -143,8 +163,10 @@ func runC30(c *core.Ctx) {
 						"state change can reach return without Broadcast (waiters are not woken): "+f.DescribePath(wit))
 				}
 			}
+			// the obligation is owed by every store, however many there are (one per component and branch, or
+			// a single store of a value computed on a local copy): the floor only guards against vacuity
+			c.ExpectAtLeast("state changes in "+name, n, 1)
 		}
-		c.ExpectAtLeast("state changes in Release/Terminate", n, 4)
 	})
 
 	c30ReleaseClauses(c)
